@@ -339,6 +339,10 @@ def refusal_cases():
                     ('non-1.1 data name in a frame loop', ['cif.new C0', 'blk.create C0 %s H0' % U('b'), 'frm.create H0 %s H1' % U('f'), 'loop.create H1 - 2 %s %s L0' % (U('_a'), U('_n\u00e4me')),
                                                            'pkt.create P0 0', 'pkt.set P0 %s ?' % U('_a'), 'loop.addpkt L0 P0'])):
         cases.append((what, L, {DISALLOWED_CHAR}))
+    # the offending name first, in the middle and last among the names of a loop (whatever order the header is written in)
+    for names in (('_n\u00e4me', '_a', '_b'), ('_a', '_n\u00e4me', '_b'), ('_a', '_b', '_n\u00e4me'), ('_z', '_n\u00e4me', '_a'), ('_\u00e4', '_b'), ('_b', '_\u00e4'), ('_a', '_\u00e4', '_z', '_\u00f6', '_b')):
+        cases.append(('non-1.1 data name among the names of a loop %s' % ascii(names), ['cif.new C0', 'blk.create C0 %s H0' % U('b'), 'loop.create H0 - %d %s L0' % (len(names), ' '.join(U(x) for x in names)),
+                                                                         'pkt.create P0 0'] + ['pkt.set P0 %s ?' % U(x) for x in names] + ['loop.addpkt L0 P0'], {DISALLOWED_CHAR}))
     return cases
 
 
